@@ -42,7 +42,9 @@ RULE = ("cells in LAMMPS triangular form (lengths 0.5-50, tilts up to 1.5 length
         "in place / by setter / through atoms_prop(scale=True); rebuild from the same parts, safecopy, deepcopy, "
         "atoms_ix[:], data-model round trip; reads of dvect/dmag/atoms_df/str/box parameters/normalize; a wrap of another "
         "system in the process) and INPUT FORMS (positions as float array, nested list, Fortran-ordered, strided view, "
-        "whole numbers as integer array / list of ints, relative positions with System(scale=True); cell as array, "
+        "whole numbers as integer array of every integer-like dtype (int8..int64, uint8..uint64, bool for 0/1 coordinates, "
+        "big-endian int32; values folded into the range of the dtype) / list of Python ints, float32 where exactly representable "
+        "(wrap_exact only), relative positions with System(scale=True); cell as array, "
         "list, tuple, Fortran-ordered, read-only, avect/bvect/cvect; pbc as list, tuple, bool ndarray, ints, numpy bools, "
         "strided, read-only; safecopy).  The judged state (cell, origin, positions, pbc) is read back from the system "
         "after the history; 'pbc' of a case is the periodicity at the judged call, 'pbc0' the one given to the constructor")
@@ -56,6 +58,8 @@ ASSUMPTIONS = ["numpy linear algebra (solve, inv, det) is correct",
                "system.pbc[i] = value is a supported way to change the periodicity (System.pbc returns the array it uses; "
                "atomman's tutorial 1.3 and its FreeSurface/Boundary/Dislocation generators do exactly this): whatever "
                "system.pbc reports at the time of the call is the periodicity wrap/normalize have to honour",
+               "float32 / float16 position arrays keep that storage precision in Atoms (the caller's choice of accuracy): generated "
+               "only where no rounding can occur (float32 in wrap_exact)",
                "a read-only positions array is the caller's restriction (Atoms keeps the array it is given, wrap writes "
                "in place): not generated",
                "normalize as an earlier operation in a history is only called inside the domain the property states "
@@ -65,7 +69,7 @@ LEVEL_TEXT = ("Random exploration of System.wrap over right/left-handed, rotated
               "inputs), and of System.normalize / lammps.normalize over fully periodic systems with cond <= 1e3; each after a random "
               "history on the same object / in the same process (periodicity changed by setter, element-wise in place or through "
               "an aliased array; cell and position edits; rebuilds, copies, reloads; reads; earlier wraps) and over the documented "
-              "input forms (lists, tuples, integer-typed, non-contiguous, read-only cell, scale=True).")
+              "input forms (lists, tuples, integer-typed in every integer-like dtype incl. unsigned and bool, non-contiguous, read-only cell, scale=True).")
 TECHNIQUE = ("independent relative-coordinate solve with derived bands, exact dyadic arithmetic on faces, "
              "exhaustive nearest-image search for pair distances, deep snapshot comparison")
 WALL = {'quick': 60, 'thorough': 600}
@@ -121,7 +125,8 @@ def atypes(n):
     return np.array([1 + (i * i + i // 2) % 3 for i in range(n)], dtype=int)
 
 
-# key of the open finding: positions handed over as whole numbers (integer ndarray or nested list of Python ints) are
+# key of the finding (fixed in /repo by 2a7c2bf; kept so that a recurrence - for any integer-like dtype - is reported as an
+# ordinary VIOLATION): positions handed over as whole numbers (integer ndarray or nested list of Python ints) are
 # stored by Atoms with an integer dtype; everything that writes positions back (wrap, box_set(scale=True) and with it
 # normalize) is then cast to integers silently
 KEY_INTPOS = 'C05:pos-integer-typed:truncated-on-write'
@@ -129,7 +134,36 @@ KEY_INTPOS = 'C05:pos-integer-typed:truncated-on-write'
 _DEFAULT_FORMS = {'pos': 'float', 'box': 'array', 'pbc': 'list', 'scaled': False, 'safecopy': False}
 
 
-def _form_pos(x, form):
+# Integer-like dtypes in which whole-number positions are handed over (forms['idt'] indexes this list; cases written before
+# the list existed have no 'idt' and mean int64).  Positions are "list/ndarray": every one of these is a legal way of giving
+# whole-number coordinates (32-bit grid indices, np.indices(..).astype('int16'), unsigned pixel/voxel coordinates, a 0/1
+# occupation pattern as bool, an integer array read from a big-endian binary file).  The unchanged code converts all of them
+# to float64 storage (checked for every entry: Atoms(pos=<dtype>).view['pos'].dtype == float64, later writes not truncated).
+INT_DTYPES = ['int64', 'int32', 'int16', 'int8', 'uint8', 'uint16', 'uint32', 'uint64', 'bool', '>i4']
+# NOT generated: float16 and, outside clause wrap_exact, float32 positions.  Atoms keeps a float array with the precision it is
+# given, so every position written back by wrap / box_set(scale=True) / normalize is rounded to 2^-24 (float32) or 2^-11
+# (float16) relative: reduced accuracy is what the caller asked for by choosing that storage, and the tolerances derived here
+# (float64 arithmetic) do not apply.  Where rounding cannot occur - clause wrap_exact, dyadic numbers that are exactly
+# representable in float32 before and after the call - float32 positions ARE generated (form 'float32') and judged with zero
+# tolerance like float64 ones; float16 (11 bits) cannot hold those numbers.
+
+
+def _fit_int(x, idt):
+    """whole-number coordinates x (float array) folded into the range of integer dtype number idt, and the dtype.
+    Folding keeps whole numbers whole and their signs (fmod), so every dtype of the list gets the same share of cases:
+    8-bit |x| < 128, 16-bit |x| < 2^15, 32-bit |x| < 2^31; unsigned: |x|; bool: coordinates 0 / 1."""
+    dt = np.dtype(INT_DTYPES[int(idt) % len(INT_DTYPES)])
+    if dt.kind == 'b':
+        return np.abs(np.fmod(x, 2.0)), dt
+    bits = 8 * dt.itemsize - 1
+    if bits < 63:
+        x = np.fmod(x, float(2 ** bits))
+    if dt.kind == 'u':
+        x = np.abs(x)
+    return x + 0.0, dt          # + 0.0: no negative zeros
+
+
+def _form_pos(x, form, idt=0):
     """the (n,3) float array x in one of the documented input forms ("list/ndarray")"""
     if form == 'float':
         return x.copy()
@@ -142,9 +176,17 @@ def _form_pos(x, form):
         big[:, ::2] = x
         return big[:, ::2]
     if form == 'int_array':
-        return x.astype(np.int64)
+        out = x.astype(np.dtype(INT_DTYPES[int(idt) % len(INT_DTYPES)]))
+        if not np.array_equal(out.astype(float), x):
+            raise HarnessError('whole-number positions do not fit dtype %s' % out.dtype)
+        return out
     if form == 'int_list':
         return [[int(v) for v in row] for row in x]
+    if form == 'float32':
+        out = x.astype(np.float32)
+        if not np.array_equal(out.astype(float), x):
+            raise HarnessError('positions are not representable in float32')
+        return out
     # NOT generated: a read-only positions array.  Atoms(pos=array) keeps the array it is given (documented:
     # "direct setting may result in the Atoms' property pointing to the original numpy array") and wrap writes the
     # positions in place, so numpy's "assignment destination is read-only" is the caller's own restriction.
@@ -204,14 +246,25 @@ def build_system(am, case, pbc, exact=False):
     V, o = gens.cell_vects(c), gens.cell_origin(c)
     s = np.array(case['rel'], dtype=float)
     x = s @ V + o
+    idt = int(forms.get('idt') or 0) % len(INT_DTYPES)
+    if forms['pos'] == 'float32':
+        # only where no rounding can occur (see the note at INT_DTYPES): exact clause, numbers with at most 20 significant bits
+        # before the call (the call only subtracts whole cell vectors, which keeps the binary grid and shrinks the magnitude)
+        grid = 2.0 ** 10
+        ok = exact and not forms['scaled'] and bool(np.all(x * grid == np.rint(x * grid)) and float(np.abs(x).max()) < 2.0 ** 10)
+        if not ok:
+            forms['pos'] = 'float'
     if forms['pos'] in ('int_array', 'int_list'):
         # whole-number Cartesian positions (what a file with "0 0 0 / 2 2 2" coordinates or a hand-written list gives)
         x = np.rint(x)
+        if forms['pos'] == 'int_array':
+            x, dt = _fit_int(x, idt)
+            forms['int_dtype'] = dt
         s = (x - o) @ np.linalg.inv(V) if exact else rel_coords(x, V, o)
     n = len(s)
     props = prop_values(n, case['nprops'])
-    scaled = bool(forms['scaled']) and forms['pos'] not in ('int_array', 'int_list')
-    atoms = am.Atoms(atype=atypes(n), pos=_form_pos(s if scaled else x, forms['pos']), **{k: v.copy() for k, v in props.items()})
+    scaled = bool(forms['scaled']) and forms['pos'] not in ('int_array', 'int_list', 'float32')
+    atoms = am.Atoms(atype=atypes(n), pos=_form_pos(s if scaled else x, forms['pos'], idt), **{k: v.copy() for k, v in props.items()})
     symbols = ('Al', 'Cu', 'Ni') if case.get('symbols') else None
     kw = {} if symbols is None else {'symbols': symbols}
     if scaled:
@@ -231,7 +284,8 @@ def build_system(am, case, pbc, exact=False):
            'cached': [bool(p) for p in pbc],    # the setting at the last constructor / setter call on this object
            'handed': handed,                    # bool ndarray handed to atomman that it may alias
            'changed': False,                    # cell or positions changed since construction
-           'int_stored': np.asarray(system.atoms.view['pos']).dtype.kind in 'iu',
+           'int_stored': np.asarray(system.atoms.view['pos']).dtype.kind in 'iub',
+           'pos_dtype': str(np.asarray(system.atoms.view['pos']).dtype),
            'forms': forms, 'scaled': scaled}
     return system, V, o, s, x, props, ctx
 
@@ -451,6 +505,16 @@ def form_labels(ctx, labels):
     f = ctx['forms']
     if f['pos'] != 'float':
         labels.add('pos_' + ('int' if f['pos'].startswith('int') else f['pos']))
+    dt = f.get('int_dtype')
+    if dt is not None:
+        # which integer-like dtype the whole-number positions were handed over in
+        if dt.kind == 'b':
+            labels.add('pos_int_bool')
+        elif dt == np.dtype('int64'):
+            labels.add('pos_int_int64')
+        else:
+            labels.add('pos_int_not64')           # every integer dtype other than the platform default
+            labels.add('pos_int_unsigned' if dt.kind == 'u' else 'pos_int_narrow')
     if ctx['scaled']:
         labels.add('pos_scaled_ctor')
     if f['box'] != 'array':
@@ -470,7 +534,7 @@ def keyed_for_integer_positions(oracle):
             return oracle(case, *a, ctx_out=ctx_out, **kw)
         except Violation as v:
             if v.key is None and ctx_out.get('int_stored'):
-                raise Violation('positions given as whole numbers are stored with dtype int64 and the result is cast to integers: ' + v.detail, key=KEY_INTPOS)
+                raise Violation('positions given as whole numbers (%s) are stored with dtype %s and the result is cast to that dtype: %s' % (ctx_out.get('given'), ctx_out.get('pos_dtype'), v.detail), key=KEY_INTPOS)
             raise
     return wrapped
 
@@ -592,12 +656,14 @@ _hist_exact = _hist_strategy(True)
 
 # documented input forms (Atoms: "list/ndarray"; Box: "array-like"; System.pbc: "tuple or list of bool" / bool ndarray)
 _pos_form = st.sampled_from(['float', 'float', 'float', 'float', 'float', 'float', 'float', 'float', 'list', 'list', 'fortran', 'strided',
-                             'int_array', 'int_list'])
+                             'int_array', 'int_list', 'int_array', 'int_array', 'int_array', 'float32', 'float32'])
+# which integer-like dtype an 'int_array' has: index into INT_DTYPES (Hypothesis over-represents the first element: int32)
+_int_dtype = st.sampled_from(list(range(1, len(INT_DTYPES))) + [0, 0, 8])
 _box_form = st.sampled_from(['array', 'array', 'array', 'list', 'tuple', 'fortran', 'readonly', 'avects'])
 _pbc_form = st.sampled_from(['list', 'list', 'tuple', 'ndarray', 'ndarray', 'int_list', 'int_array', 'npbool', 'strided', 'readonly'])
 _one_in_5 = st.sampled_from([False, False, False, False, True])
-_forms = st.builds(lambda a, b, c, d, e: {'pos': a, 'box': b, 'pbc': c, 'scaled': d, 'safecopy': e},
-                   _pos_form, _box_form, _pbc_form, _one_in_5, _one_in_5)
+_forms = st.builds(lambda a, b, c, d, e, i: {'pos': a, 'box': b, 'pbc': c, 'scaled': d, 'safecopy': e, 'idt': i},
+                   _pos_form, _box_form, _pbc_form, _one_in_5, _one_in_5, _int_dtype)
 
 
 def final_pbc(pbc0, hist):
@@ -669,7 +735,8 @@ def oracle_wrap(case, exact=False, ctx_out=None):
         raise HarnessError("case['pbc'] is not the periodicity its history ends with")
     system, V, o, s, x, props, ctx = build_system(am, case, pbc0, exact=exact)
     if ctx_out is not None:
-        ctx_out['int_stored'] = ctx['int_stored']
+        ctx_out.update(int_stored=ctx['int_stored'], pos_dtype=ctx['pos_dtype'],
+                       given=str(ctx['forms'].get('int_dtype', 'list of Python ints')))
     n = len(s)
     at0 = atypes(n)
     labels = gens.cell_labels(c)
@@ -833,7 +900,8 @@ def oracle_normalize(case, ctx_out=None):
         return labels | {'illcond_skipped'}
     system, V, o, s, x, props, ctx = build_system(am, case, pbc0)
     if ctx_out is not None:
-        ctx_out['int_stored'] = ctx['int_stored']
+        ctx_out.update(int_stored=ctx['int_stored'], pos_dtype=ctx['pos_dtype'],
+                       given=str(ctx['forms'].get('int_dtype', 'list of Python ints')))
     n = len(s)
     at0 = atypes(n)
     form_labels(ctx, labels)
@@ -980,17 +1048,20 @@ CLAUSES = [
                       'hist': 0.25, 'pbc_changed': 0.12, 'pbc_inplace': 0.07, 'inplace_toggled_out': 0.05, 'pbc_elem': 0.1,
                       'pbc_setter': 0.08, 'forms': 0.35, 'pbc_form': 0.28, 'box_form': 0.2, 'pos_scaled_ctor': 0.06,
                       'pos_list': 0.05, 'hist_rebuild': 0.05, 'hist_read': 0.06, 'hist_box_set': 0.025, 'hist_pos_edit': 0.03,
-                      'prior_wrap': 0.03, 'prior_scaled_read': 0.07},
+                      'prior_wrap': 0.03, 'prior_scaled_read': 0.07,
+                      'pos_int': 0.08, 'pos_int_not64': 0.05, 'pos_int_narrow': 0.025, 'pos_int_unsigned': 0.02, 'pos_int_bool': 0.008},
            desc='wrap: moves = imageflags.vects on periodic axes only, periodic vectors unchanged, cell only grows, all atoms inside, properties untouched; after any history, every input form'),
     Clause('wrap_exact', oracle_wrap_exact, wrap_exact_cases, quick=2400, thorough=50000,
            min_share={'exact': 0.5, 'nt': 0.35, 'onface': 0.4, 'far': 0.3, 'pbc3': 0.1, 'mixed_pbc': 0.3,
-                      'hist': 0.25, 'pbc_changed': 0.15, 'pbc_inplace': 0.08, 'inplace_toggled_out': 0.07, 'forms': 0.35},
+                      'hist': 0.25, 'pbc_changed': 0.15, 'pbc_inplace': 0.08, 'inplace_toggled_out': 0.07, 'forms': 0.35,
+                      'pos_int': 0.08, 'pos_int_not64': 0.05, 'pos_int_narrow': 0.025, 'pos_int_unsigned': 0.02, 'pos_int_bool': 0.008, 'pos_float32': 0.025},
            desc='wrap on exactly representable inputs (atoms exactly on faces, far outside): zero tolerance, zero band on periodic axes; after exactness-preserving histories'),
     Clause('normalize', oracle_normalize, normalize_cases, quick=4000, thorough=100000,
            min_share={'nt': 0.35, 'lefthanded': 0.2, 'rotated': 0.2, 'tilted': 0.3, 'pairs': 0.35, 'transform_returned': 0.3,
                       'via_function': 0.12, 'far': 0.04, 'props': 0.3,
                       'hist': 0.35, 'pbc_changed': 0.3, 'pbc_inplace': 0.2, 'inplace_toggled_out': 0.15, 'forms': 0.35,
-                      'hist_box_set': 0.03, 'hist_pos_edit': 0.03, 'hist_rebuild': 0.05},
+                      'hist_box_set': 0.03, 'hist_pos_edit': 0.03, 'hist_rebuild': 0.05,
+                      'pos_int': 0.08, 'pos_int_not64': 0.05, 'pos_int_narrow': 0.025, 'pos_int_unsigned': 0.02, 'pos_int_bool': 0.008},
            max_share={'illcond_skipped': 0.05},
            desc='normalize: input untouched, new right-handed LAMMPS cell with same lengths/angles/volume, proper rotation maps old vectors to new, atoms inside, nearest-image distances unchanged; after any history ending fully periodic, every input form'),
 ]
